@@ -1,6 +1,6 @@
 (* Extraction of the state-machine models (transition-table model, table interpreter, generated-program models). *)
 From Coq Require Import Extraction ExtrOcamlBasic ExtrOcamlNativeString.
-From KV Require Import Lib.TableDef Model.TTable Spec.TableInterp Model.PyShape Gen.PyTmpl Model.PySM.
+From KV Require Import Lib.TableDef Model.TTable Spec.TableInterp Model.PyShape Gen.PyTmpl Model.PySM Gen.SmlTmpl Model.SmlTT.
 
 Extraction Blacklist String List Bool.
 
@@ -9,4 +9,5 @@ Separate Extraction
   TTable.states TTable.events TTable.actions TTable.guards TTable.actionsignatures TTable.tps_states TTable.events_of
   TTable.trans_of TTable.getfirststate TTable.wf_table
   TableInterp.table_interp
-  PySM.gen_py PySM.parse_indent PySM.run_py PySM.code_lines.
+  PySM.gen_py PySM.parse_indent PySM.run_py PySM.code_lines
+  SmlTT.gen_sml.
